@@ -125,6 +125,7 @@ type Sim struct {
 	epochT0 time.Time // block time of the last epoch start
 	lastTx  *TxRes    // the tx being / last processed (for classification in monitors)
 	t0      time.Time // block time when the world was created
+	asym    int       // world-build switch: asymmetric add-on endpoints for the next SPA stake
 }
 
 // MaxEpochSpan bounds the block time one epoch may span in generated histories.
